@@ -156,8 +156,90 @@ impl Workload for Rewrites {
     }
 }
 
+/// Hand-written corpus programs: blanks, newlines and comments inserted between any two tokens
+/// (token boundaries from the implementation's tokenizer) must keep acceptance and the document.
+pub struct CorpusTrivia {
+    pub variants: u64,
+}
+
+fn trivia_text(text: &str, rng: &mut Rng) -> String {
+    let toks = crate::gen::mutate::token_ranges(text);
+    let mut out = String::new();
+    let mut prev_end = 0;
+    for (s, e) in toks {
+        // keep the original separator (it may be required, e.g. after a line annotation) and add to it
+        out.push_str(&text[prev_end..s]);
+        if s > 0 {
+            out.push_str(match rng.below(8) {
+                0 => " ",
+                1 => "\n",
+                2 => " /* c */ ",
+                3 => " // c\n",
+                4 => "\r\n",
+                5 => "\t",
+                _ => "",
+            });
+        }
+        out.push_str(&text[s..e]);
+        prev_end = e;
+    }
+    out.push_str(&text[prev_end..]);
+    out
+}
+
+impl Workload for CorpusTrivia {
+    fn len(&self) -> u64 {
+        super::explore::corpus().len() as u64 * self.variants
+    }
+    fn case_json(&self, seed: u64, idx: u64) -> Value {
+        json!({"seed": seed, "index": idx, "program": super::explore::corpus()[(idx / self.variants) as usize].0})
+    }
+    fn run(&self, seed: u64, idx: u64, st: &mut Stats) -> Vec<Violation> {
+        let (name, src) = &super::explore::corpus()[(idx / self.variants) as usize];
+        let Ok(d0) = doc_of(src) else {
+            st.inc("corpus_program_not_accepted_skipped");
+            return vec![];
+        };
+        let mut rng = Rng::for_case(seed, "c05corpus", idx);
+        let mut v = src.clone();
+        for f in v.files.iter_mut() {
+            f.1 = trivia_text(&f.1, &mut rng);
+        }
+        st.inc("corpus_trivia_variants");
+        st.nontrivial(hash64(&v.files));
+        match doc_of(&v) {
+            Ok(d) if first_diff(&canon(&d), &canon(&d0)).is_none() => vec![],
+            Ok(_) => vec![Violation::new(
+                "inserting blanks/comments between tokens changed the emitted document",
+                json!({"signature": "C05 corpus trivia changes document", "program": name, "original_sources": src.to_json(), "rewritten_sources": v.to_json()}),
+            )],
+            Err(class) => vec![Violation::new(
+                "inserting blanks/comments between tokens broke acceptance",
+                json!({"signature": format!("C05 corpus trivia breaks acceptance:{class}"), "program": name, "original_sources": src.to_json(), "rewritten_sources": v.to_json()}),
+            )],
+        }
+    }
+    fn run_json(&self, case: &Value, st: &mut Stats) -> Vec<Violation> {
+        if let (Some(a), Some(b)) = (case.get("original_sources"), case.get("rewritten_sources")) {
+            let (da, db) = (doc_of(&Sources::from_json(a)), doc_of(&Sources::from_json(b)));
+            return match (da, db) {
+                (Ok(x), Ok(y)) if first_diff(&canon(&x), &canon(&y)).is_none() => vec![],
+                _ => vec![Violation::new("rewritten sources still differ", json!({"signature": "C05 replay"}))],
+            };
+        }
+        self.run(case["seed"].as_u64().unwrap_or(1), case["index"].as_u64().unwrap_or(0), st)
+    }
+    fn chunk(&self) -> u64 {
+        50
+    }
+}
+
 pub fn run(ctx: &Ctx) -> i32 {
     let mut acc = Acc::new(ctx);
+    let ct = CorpusTrivia {
+        variants: if ctx.quick() { 8 } else { 200 },
+    };
+    acc.pool(&ct, "c05corpus", true);
     let wl = Rewrites {
         n: if ctx.quick() { 12_000 } else { 300_000 },
     };
